@@ -1,5 +1,6 @@
 import PgFdr.Proofs.C12
 import PgFdr.Proofs.C12Design
+import PgFdr.Proofs.C12Columns
 import PgFdr.Proofs.C17
 import PgFdr.Proofs.CliQuant
 import PgFdr.Proofs.CliQuantDemo
@@ -28,6 +29,9 @@ predicates `counted`, `chan`, `hit`, `identifiedIn`, `entersGroup`, `rowCounted`
 `PgFdr/Proofs/C12.lean`; `CliQuant.covers` / `coveredFraction` (closed form of the sequence coverage) in
 `Proofs/CliQuant.lean`; `CliQuant.cellUnder` (the cell under a header string) and `CliQuant.outputTable` in
 `Model/CliQuant.lean`.
+The remapping of evidence rows through `helpers.remove_modifications` + the digest map (`evidenceRows`, `remapRow`,
+`quantifyFiles`) and the column pipeline of `append_quant_columns` (`writerSegments`, `c12Cells`, `runSt`) are
+`PgFdr/Model/C12Columns.lean` (last two sections of this file; helper lemmas in `Proofs/C12Columns.lean`).
 Uniform-layout hypotheses: the channel numbers of a run are those of the FIRST parsed row while every row carries the
 SILAC / reporter values of its own file, and several `--mq_evidence` files with different headers are a legal input.
 The theorems that need "no row has more SILAC values than the first" (`conservation`, `intensity_recompute`,
@@ -1166,5 +1170,235 @@ example : (CliQuant.quantHeaders { experiments := ["treated", "control", "alpha"
     some (47, 23, 25, 37) := by decide +kernel
 example : (CliQuant.quantHeaders { experiments := ["E1", "L E1"], silac := 2, tmt := 0 }).toOption = none := by
   decide +kernel
+
+/-! ## remapping: the protein list of an evidence row is the digest's list of its STRIPPED modified sequence
+
+`python -m picked_group_fdr.quantification` with `--fasta` / `--peptide_protein_map` and the default methods of
+`picked_group_fdr --do_quant` remap: `get_proteins` of `parsers/psm.py` looks the row's modified sequence up through
+`helpers.remove_modifications`.  The stripping is `C10.removeMods` (model of C10, imported); what C10 proves about it —
+every spelling of a bare peptide with `( … )` tokens (nested MaxQuant tokens `(Oxidation (M))` included), `[ … ]`
+tokens and stray `)` strips to the bare peptide, a string without delimiters is left alone
+(`C10.modification_spelling_irrelevant`, `C10.removeModsL_spells`) — is used here, not repeated.  The theorems below
+put the stripping inside the C12 statements: a row whose stripped peptide were wrong would be dropped or attached to
+another group, and every column of this file would change. -/
+
+/-- without remapping the row stream is the concatenation of the files as they are, so every theorem of this file
+    about `quantify rows …` is a theorem about `quantifyFiles false …`; with remapping ONLY the protein list of a
+    row changes: it becomes the digest's list (of the map of the file's position) of the stripped modified sequence;
+    id, modified sequence, charge, experiment, fraction, intensity, PEP, SILAC and reporter values are untouched;
+    files and maps are paired as `C10.pairUp` pairs them -/
+theorem remap_rows (maps : List C10.DMap) (files : List (List Row)) :
+    evidenceRows false maps files = files.flatten ∧
+    (∀ groups level ibaq, quantifyFiles false maps files groups level ibaq = quantify files.flatten groups level ibaq) ∧
+    (∀ x, x ∈ evidenceRows true maps files ↔
+      ∃ p ∈ pairFiles true maps files, ∃ r ∈ p.2, x = remapRow true p.1 r) ∧
+    (∀ (m : C10.DMap) (r : Row),
+      (remapRow true m r).leading = C10.digestLookup m (C10.removeMods r.peptide) ∧
+      (remapRow true m r).id = r.id ∧ (remapRow true m r).peptide = r.peptide ∧
+      (remapRow true m r).charge = r.charge ∧ (remapRow true m r).experiment = r.experiment ∧
+      (remapRow true m r).fraction = r.fraction ∧ (remapRow true m r).intensity = r.intensity ∧
+      (remapRow true m r).pep = r.pep ∧ (remapRow true m r).silac = r.silac ∧ (remapRow true m r).tmt = r.tmt) ∧
+    (∀ (rawFiles : List (List C10.RawRow)), pairFiles true maps rawFiles = C10.pairUp true maps rawFiles) := by
+  have h0 : evidenceRows false maps files = files.flatten := by
+    unfold evidenceRows pairFiles
+    simpa using evidenceRows_replicate [] files
+  refine ⟨h0, ?_, fun x => mem_evidenceRows true maps files x, ?_, fun _ => rfl⟩
+  · intro groups level ibaq
+    unfold quantifyFiles
+    rw [h0]
+  · intro m r
+    exact ⟨rfl, rfl, rfl, rfl, rfl, rfl, rfl, rfl, rfl, rfl⟩
+
+/-- "Each quantified evidence row is attached to exactly the one reported protein group containing all of its
+    proteins" when the run remaps: the proteins of a row are those the digest lists for the BARE peptide its modified
+    sequence spells (`C10.Spells`: any number of `( … )` / `[ … ]` tokens, nested MaxQuant tokens), decoys purged
+    from target lists; hence two spellings of one bare peptide — one modification, two or more, none — have the
+    same protein list and are attached to the same group (or both left out), and a row whose bare peptide the digest
+    does not know has no proteins and is dropped -/
+theorem remap_spelling (m : C10.DMap) (r r' : Row) (b : List Char)
+    (h : C10.Spells r.peptide.toList b) (h' : C10.Spells r'.peptide.toList b) :
+    prots (remapRow true m r) = removeDecoyProteinsFromTargetPeptides (C10.digestLookup m (String.ofList b)) ∧
+    prots (remapRow true m r) = prots (remapRow true m r') ∧
+    (∀ groups, attachTo groups (remapRow true m r) = attachTo groups (remapRow true m r')) ∧
+    (C10.digestLookup m (String.ofList b) = [] → ∀ rows, remapRow true m r ∉ parsed rows) := by
+  have e : ∀ x : Row, C10.Spells x.peptide.toList b →
+      prots (remapRow true m x) = removeDecoyProteinsFromTargetPeptides (C10.digestLookup m (String.ofList b)) := by
+    intro x hx
+    rw [prots_remap]
+    unfold C10.removeMods
+    rw [C10.removeModsL_spells hx]
+  refine ⟨e r h, by rw [e r h, e r' h'], fun groups => attachTo_congr groups _ _ (by rw [e r h, e r' h']), ?_⟩
+  intro hnil rows hmem
+  have := ((mem_parsed rows _).mp hmem).2
+  rw [e r h, hnil] at this
+  exact this rfl
+
+/-- an unmodified sequence (no `(`, `)`, `[`, `]`) is looked up under itself -/
+theorem remap_unmodified (m : C10.DMap) (r : Row) (h : C10.Plain r.peptide.toList) :
+    (remapRow true m r).leading = C10.digestLookup m r.peptide := by
+  have h1 : C10.removeModsL r.peptide.toList = r.peptide.toList := by
+    have := C10.removeModsL_plain_append r.peptide.toList [] h
+    have h0 : C10.removeModsL [] = [] := rfl
+    rw [h0] at this
+    simpa using this
+  show C10.digestLookup m (C10.removeMods r.peptide) = _
+  unfold C10.removeMods
+  rw [h1, String.ofList_toList]
+
+/-- `attach_unique` for a remapping run: the precursors of reported group `g` are the remapped evidence rows (file
+    order, each through the map of its file's position) that have a protein after the decoy purge and whose proteins
+    are all listed by `g` -/
+theorem remap_attach_unique (maps : List C10.DMap) (files : List (List Row)) (groups : List (List String)) (g : Nat)
+    (x : Row) :
+    x ∈ attached (evidenceRows true maps files) groups g ↔
+      (∃ p ∈ pairFiles true maps files, ∃ r ∈ p.2, x = remapRow true p.1 r) ∧
+        prots x ≠ [] ∧ ∀ q ∈ prots x, idxOf groups q = some g := by
+  rw [attach_unique, mem_evidenceRows]
+
+/-- a `[ … ]` token whose body holds a `( … )` token — `[Phospho (STY)]`, `[Oxidation (M)]`, `[Acetyl (Protein N-term)]`,
+    outside the grammar `C10.Spells` (bracket bodies free of `(`) — is removed as a whole: the first regex pass takes the
+    inner token, the second the bracket that is left -/
+theorem strip_bracket_with_inner_paren (a b c rest : List Char)
+    (ha : ∀ x ∈ a, x ≠ '(' ∧ x ≠ ']') (hb : ∀ x ∈ b, x ≠ ')') (hc : ∀ x ∈ c, x ≠ '(' ∧ x ≠ ']') :
+    C10.removeModsL ('[' :: (a ++ '(' :: (b ++ ')' :: (c ++ ']' :: rest)))) = C10.removeModsL rest :=
+  removeModsL_bracket_nested a b c rest ha hb hc
+
+/-! non-vacuity: modified sequences with TWO OR MORE modifications in every notation the parsers accept -/
+example : C10.removeModsL "AAAM(ox)PEPTM(ox)DEK".toList = "AAAMPEPTMDEK".toList := by decide
+example : C10.removeModsL "(ac)MAAM(ox)PEPTM(ox)DEK".toList = "MAAMPEPTMDEK".toList := by decide
+example : C10.removeModsL "M(Oxidation (M))AAM(Oxidation (M))K".toList = "MAAMK".toList := by decide
+example : C10.removeModsL "S[Phospho (STY)]AAM[Oxidation (M)]K".toList = "SAAMK".toList := by decide
+example : C10.removeModsL "(Acetyl (Protein N-term))M(Oxidation (M))S(Phospho (STY))K".toList = "MSK".toList := by decide
+example : C10.Spells "AAM(ox)PM(ox)K".toList "AAMPMK".toList :=
+  .residue 'A' (by decide) (.residue 'A' (by decide) (.residue 'M' (by decide) (.paren "ox".toList (by decide)
+    (.residue 'P' (by decide) (.residue 'M' (by decide) (.paren "ox".toList (by decide)
+      (.residue 'K' (by decide) .nil)))))))
+example : C10.Plain "AAMPMK".toList := by unfold C10.Plain; decide
+
+private def mapEx : C10.DMap := [("AAMPMK", ["P1"]), ("AAK", ["P3"]), ("DDK", ["P3", "REV__P1"])]
+private def m1 : Row :=
+  { id := 7, peptide := "AAM(ox)PM(ox)K", charge := 2, experiment := "E1", fraction := "-1",
+    leading := ["ignored"], intensity := some 100, pep := .fin (1/1000), silac := [], tmt := [] }
+private def m2 : Row := { m1 with id := 8, peptide := "AAM(Oxidation (M))PMK", experiment := "E2", pep := .nan }
+private def m3 : Row := { m1 with id := 9, peptide := "AAMK", leading := ["P1"] }
+private def m4 : Row := { m1 with id := 10, peptide := "[ac]DDK", intensity := none }
+/-- both spellings reach group 0 through the digest of the bare peptide, the `Leading proteins` cell is ignored, the
+    row whose stripped peptide the digest does not know is dropped, the decoy listed with a target is purged -/
+example : (List.range 2).map (fun g => (attached (evidenceRows true [mapEx] [[m1, m2], [m3, m4]]) [["P1"], ["P3"]] g).map
+    (fun x => (x.id, x.peptide, x.leading))) =
+    [[(7, "AAM(ox)PM(ox)K", ["P1"]), (8, "AAM(Oxidation (M))PMK", ["P1"])], [(10, "[ac]DDK", ["P3", "REV__P1"])]] := by
+  decide +kernel
+example : evidenceRows false [mapEx] [[m1, m2], [m3, m4]] = [m1, m2, m3, m4] := by decide +kernel
+
+/-! ## the column pipeline: the C12 columns are functions of the precursor list alone
+
+`append_quant_columns` hands the SAME per-group list `pgr.precursorQuants` to every generator of
+`writer.get_columns()`; with the default options the MaxLFQ generator runs between the summed-intensity generator
+and the sequence-coverage / reporter / evidence-id generators.  In the model (`Model/C12Columns.lean`) the cells of
+the five C12 generators are `c12Cells x quants g` — the loop functions every per-column theorem of this file is
+about (`peptideCounts`, `idTypes`, `intensities` / `totalOf` / `leadingN`, `tmtSums`, `evidenceIds`), applied to the
+list — and the cells of all other generators are an arbitrary parameter `foreign`. -/
+
+/-- "Per group and experiment the summed intensity, iBAQ …, unique-peptide counts, identification type and evidence
+    IDs equal a direct recomputation from those precursors" — whichever other columns are written, and in whichever
+    order: for ANY two generator lists containing the C12 generator `g` (any order, any other generators between,
+    before and after, e.g. with or without MaxLFQ) and ANY cells the other generators produce, the cells `g` writes
+    are the same, namely the C12 function of the precursor list (`c12Cells`) when `g` is valid for the run
+    (`C13.Gen.valid`: the reporter generator needs reporter channels) and none otherwise -/
+theorem c12_columns_independent_of_other_columns (foreign foreign' : C13.Gen → List Row → List Cell) (x : ColCtx)
+    (quants : List Row) (gens gens' : List C13.Gen) (g : C13.Gen) (hg : isC12Gen g = true)
+    (h : g ∈ gens) (h' : g ∈ gens') :
+    segmentOf (writerSegments foreign x quants gens) g = segmentOf (writerSegments foreign' x quants gens') g ∧
+    segmentOf (writerSegments foreign x quants gens) g = (if g.valid x.hdr then c12Cells x quants g else none) := by
+  have e : ∀ f gs, g ∈ gs →
+      segmentOf (writerSegments f x quants gs) g = (if g.valid x.hdr then c12Cells x quants g else none) := by
+    intro f gs hgs
+    rw [segmentOf_writerSegments f x quants gs g hgs, genCells_c12 f x quants g hg]
+  exact ⟨by rw [e foreign gens h, e foreign' gens' h'], e foreign gens h⟩
+
+/-- column-order independence: reordering the generators reorders the segments and changes none (every generator is
+    applied to the same immutable list) -/
+theorem column_order_independent (foreign : C13.Gen → List Row → List Cell) (x : ColCtx) (quants : List Row)
+    (gens gens' : List C13.Gen) (h : gens.Perm gens') :
+    (writerSegments foreign x quants gens).Perm (writerSegments foreign x quants gens') :=
+  (h.filter _).map _
+
+/-- the MaxLFQ generator in particular: the row written with the default options (`(C13.Writer.maxquant false).columns`)
+    is, after its MaxLFQ segment is taken out, the row written with `--skip_lfq`, segment by segment — whatever the
+    MaxLFQ cells are -/
+theorem lfq_column_irrelevant (foreign : C13.Gen → List Row → List Cell) (x : ColCtx) (quants : List Row) :
+    (writerSegments foreign x quants (C13.Writer.maxquant false).columns).filter (fun s => s.1 != .lfq) =
+      writerSegments foreign x quants (C13.Writer.maxquant true).columns := by
+  rw [writerSegments_filter foreign x quants _ (fun g => g != .lfq)]
+  rfl
+
+/-- the cells of the C12 generators are the fields of `groupOut` — the record the driver op `quant` returns and
+    `output_groups` / `output_groups_exps` tie to the run — so `counts_recompute`, `idtype_recompute`,
+    `intensity_recompute`, `total_is_sum_of_experiments`, `ibaq_def`, `tmt_recompute`, `evidence_ids_sorted_exact`
+    are statements about every row the pipeline writes -/
+theorem pipeline_cells_are_groupOut (exps : List String) (S : Nat) (nS T : Int) (c : Rat) (ibaq : List (String × Nat))
+    (ids : List String) (quants : List Row) :
+    let o := groupOut exps S T c ibaq ids quants
+    let x : ColCtx := { exps := exps, S := S, nSilac := nS, nTmt := T, c := c, ibaq := ibaq, ids := ids }
+    c12Cells x quants .uniqueCounts = some (o.counts.map .nat) ∧
+    c12Cells x quants .idType = some (o.idType.map .str) ∧
+    c12Cells x quants .sumIbaq = some ([Cell.rat o.total] ++ o.intens.map .rat ++ [Cell.nats o.nPeps]
+      ++ [Cell.rat o.ibaqTotal] ++ o.ibaq.map .rat) ∧
+    (T > 0 → c12Cells x quants .tmt = some (o.tmt.map .rat)) ∧
+    c12Cells x quants .evidenceIds = some [Cell.ints o.evidenceIds] := by
+  refine ⟨rfl, rfl, ?_, ?_, rfl⟩
+  · simp [c12Cells, groupOut, List.map_map, Function.comp]
+  · intro hT
+    simp [c12Cells, groupOut, hT]
+
+/-- what the code must keep true for the pure pipeline to be its model: a generator MAY replace
+    `pgr.precursorQuants` (`runSt`: each generator works on the list its predecessors left behind); if every
+    generator hands the list on unchanged, the run is the pure pipeline and the list is still the identified
+    precursors afterwards.  (The correspondence observes both sides on every case: the cells, and
+    `pgr.precursorQuants` AFTER the writer ran.) -/
+theorem stateful_pipeline_of_read_only (sts : List StGen) (quants : List Row)
+    (h : ∀ s ∈ sts, ∀ q, (s.run q).2 = q) :
+    runSt sts quants = (sts.map (fun s => (s.gen, (s.run quants).1)), quants) ∧
+    ∀ (foreign : C13.Gen → List Row → List Cell) (x : ColCtx) (gens : List C13.Gen),
+      runSt ((gens.filter (fun g => g.valid x.hdr)).map (readOnly foreign x)) quants =
+        (writerSegments foreign x quants gens, quants) := by
+  refine ⟨runSt_of_readOnly sts quants h, ?_⟩
+  intro foreign x gens
+  rw [runSt_of_readOnly _ quants (by
+    intro s hs q
+    obtain ⟨g, _, rfl⟩ := List.mem_map.mp hs
+    rfl)]
+  simp [writerSegments, readOnly, List.map_map, Function.comp]
+
+/-! non-vacuity: a label-free run with two experiments (the MaxLFQ generator is valid); `q2` is an identified MS/MS row
+without an MS1 intensity -/
+private def q1 : Row :=
+  { id := 5, peptide := "AAK", charge := 2, experiment := "E1", fraction := "-1",
+    leading := ["P1"], intensity := some 100, pep := .fin (1/1000), silac := [], tmt := [] }
+private def q2 : Row := { q1 with id := 3, peptide := "CCK", experiment := "E2", intensity := some 0 }
+private def q3 : Row := { q1 with id := 4, experiment := "E2", intensity := none, pep := .nan }
+private def xEx : ColCtx :=
+  { exps := ["E1", "E2"], S := 0, nSilac := 0, nTmt := 0, c := 1/100, ibaq := [("P1", 2)], ids := ["P1"] }
+private def lfqCells (_ : C13.Gen) (_ : List Row) : List Cell := [.foreign "lfq E1", .foreign "lfq E2"]
+example : (writerSegments lfqCells xEx [q1, q2, q3] (C13.Writer.maxquant false).columns).map (·.1) =
+    [.annotations, .uniqueCounts, .idType, .sumIbaq, .lfq, .coverage, .evidenceIds] := by decide +kernel
+example : (writerSegments lfqCells xEx [q1, q2, q3] (C13.Writer.maxquant true).columns).map (·.1) =
+    [.annotations, .uniqueCounts, .idType, .sumIbaq, .coverage, .evidenceIds] := by decide +kernel
+example : segmentOf (writerSegments lfqCells xEx [q1, q2, q3] (C13.Writer.maxquant false).columns) .evidenceIds =
+    some [.ints [3, 4, 5]] ∧
+    segmentOf (writerSegments lfqCells xEx [q1, q2, q3] (C13.Writer.maxquant false).columns) .uniqueCounts =
+    some [.nat 2, .nat 1, .nat 2] ∧
+    segmentOf (writerSegments lfqCells xEx [q1, q2, q3] (C13.Writer.maxquant false).columns) .sumIbaq =
+    some [.rat 100, .rat 100, .rat 0, .nats [2], .rat 50, .rat 50, .rat 0] := by decide +kernel
+/-- the hypothesis of `stateful_pipeline_of_read_only` is needed: a MaxLFQ generator that keeps only the precursors with
+    a positive intensity for itself AND for its successors makes the evidence-id generator lose the rows 3 and 4 that the
+    count generator (which ran before) counted -/
+private def greedyLfq : StGen :=
+  { gen := .lfq, run := fun q => ([.foreign "lfq"], q.filter (fun p => match p.intensity with | some v => decide (v > 0) | none => false)) }
+example : (runSt [readOnly lfqCells xEx .uniqueCounts, greedyLfq, readOnly lfqCells xEx .evidenceIds] [q1, q2, q3]) =
+    ([(.uniqueCounts, [.nat 2, .nat 1, .nat 2]), (.lfq, [.foreign "lfq"]), (.evidenceIds, [.ints [5]])], [q1]) := by
+  decide +kernel
+example : (runSt [readOnly lfqCells xEx .uniqueCounts, readOnly lfqCells xEx .lfq, readOnly lfqCells xEx .evidenceIds]
+    [q1, q2, q3]).1.lookup .evidenceIds = some [.ints [3, 4, 5]] := by decide +kernel
 
 end PgFdr.C12
